@@ -82,18 +82,31 @@ def phase2(smt2, budget_ms, use_cvc5=True):
         if r2 == 'sat':
             return 'refuted', 'cvc5'
     if budget_ms > PHASE1_MS:
-        s = z3.Solver()
-        s.set('timeout', budget_ms)
-        try:
-            s.from_string(smt2)
-            r = s.check()
-        except Exception:
-            r = z3.unknown
-        if r == z3.unsat:
+        r = _z3_cli(smt2, budget_ms)
+        if r == 'unsat':
             return 'proved', 'z3'
-        if r == z3.sat:
+        if r == 'sat':
             return 'refuted', 'z3'
     return 'unknown', 'z3'
+
+
+def _z3_cli(smt2, timeout_ms):
+    """z3 as a separate process with a hard wall-clock limit (the in-process timeout is only advisory for quantified queries)"""
+    import shutil
+    exe = shutil.which('z3-new') or shutil.which('z3')
+    if not exe:
+        return 'unknown'
+    with tempfile.NamedTemporaryFile('w', suffix='.smt2', delete=False, dir=os.environ.get('TMPDIR', '/var/tmp')) as f:
+        f.write(smt2 + '\n')
+        path = f.name
+    try:
+        r = subprocess.run([exe, '-smt2', '-T:%d' % max(1, timeout_ms // 1000), path], capture_output=True, text=True, timeout=timeout_ms / 1000 + 5)
+        out = r.stdout.strip().splitlines()
+        return out[0] if out and out[0] in ('sat', 'unsat', 'unknown') else 'unknown'
+    except Exception:
+        return 'unknown'
+    finally:
+        os.unlink(path)
 
 
 def _phase2_task(arg):
